@@ -113,6 +113,8 @@ def sh4(ctx: Ctx, shapes: Shapes):
                 if lazy is None:
                     ctx.note(f"SH4: no lazy definition found for eager key {k!r}")
                     continue
+                if k not in fillers:
+                    continue        # handled by SH4c below (needs the unmerged analysis)
                 esh = shapes.shape(ev, st.facts, fi, None, r)
                 verdicts = []
                 same = any(lv == ev for _f, lv, _fi, _r in lazy)
@@ -130,8 +132,11 @@ def sh4(ctx: Ctx, shapes: Shapes):
                 cond = _cond_sig(st.facts, init.heap)
                 auth = init.heap.get((S, "_netloc"))
                 ash = "/".join(sorted(shapes.shape(auth, st.facts, fi, None, r))) if auth is not None else "?"
+                if not ash:
+                    continue        # contradictory path condition
                 bad = [f"{b} when the stored authority is {ash}" for b in bad]
                 results.setdefault((k, tuple(bad)), []).append((cond, verdicts, node))
+        _sh4c(ctx, model, shapes, fi, methods, fillers, results)
         for (k, bad), lst in results.items():
             ctx.instance(rule)
             cond, verdicts, node = lst[0]
@@ -167,6 +172,67 @@ def _assembly(ctx, rule, fi, r, st, node, entries, netloc, results):
             or (entries[k] == ("const", None) and truth(("cmp", "Is", comps[k], ("const", None)), st.facts) is True)
         bad = () if ok else (f"eager {show(entries[k])[:50]} but the authority is assembled from {show(comps[k])[:50]}",)
         results.setdefault((k + " (assembly)", bad), []).append(("", [("pre-filled value is the component the authority was assembled from", ok)], node))
+
+
+def _sh4c(ctx, model, shapes, fi, methods, fillers, results):
+    """An accessor computed directly by its property body (not through the authority splitter): the pre-filled value
+    must be the very term the property computes, on every jointly feasible (constructor exit, property path) pair.
+    Uses the unmerged constructor analysis (the correlation between the slots matters), de-duplicated on the facts
+    that are about the stored slots and the pre-filled value."""
+    from ..interp import assume
+    from ..terms import walk
+    r = analyze(model, fi, merge=False)
+    seen = set()
+    for st, rv, node in r.returns:
+        if rv[0] != "new":
+            continue
+        cache = st.heap.get((rv, "_cache"))
+        entries = {}
+        t = cache
+        while t is not None and t[0] == "mut":
+            if t[2] == "setitem" and t[3][0][0] == "const":
+                entries.setdefault(t[3][0][1], t[3][1])
+            t = t[1]
+        slots = {attr: v for (obj, attr), v in st.heap.items() if obj == rv and attr != "_cache"}
+        sub = {("attr", S, kk): vv for kk, vv in entries.items()}
+        for k, ev in entries.items():
+            if k in fillers or k not in methods:
+                continue
+            pfi = methods[k]
+            mentioned = {a for n in __import__("ast").walk(pfi.node) if isinstance(n, __import__("ast").Attribute)
+                         and isinstance(n.value, __import__("ast").Name) and n.value.id == "self" for a in [n.attr]}
+            rel_terms = [slots[a] for a in mentioned if a in slots] + [entries[a] for a in mentioned if a in entries] + [ev]
+            from ..interp import subject
+            rset = set(rel_terms)
+            rel = {fk: fv for fk, fv in st.facts.items() if subject(fk) in rset}
+            key = (k, ev, tuple(sorted((a, slots[a]) for a in mentioned if a in slots)), frozenset(rel.items()))
+            if key in seen:
+                continue
+            seen.add(key)
+            base = State(facts=rel)
+            if shapes_contradiction(shapes, base, fi, r):
+                continue
+            init = State(facts=dict(rel))
+            for a, v in slots.items():
+                init.heap[(S, a)] = v
+            res = Analyzer(model, pfi).run(init)
+            diffs = []
+            for ls, lv, _n in res.returns:
+                lv2 = _subst(lv, sub)
+                joint = State(facts=dict(ls.facts))
+                feasible = not shapes_contradiction(shapes, joint, pfi, res)
+                if feasible and lv2 != ev:
+                    diffs.append(f"pre-filled {show(ev)[:50]} but the accessor computes {show(lv2)[:60]}")
+            bad = tuple(sorted(set(diffs)))[:1]
+            results.setdefault((k + " (definition)", bad), []).append(("", [("same term as the accessor's own definition", not bad)], node))
+
+
+def _subst(t, sub):
+    if t in sub:
+        return sub[t]
+    if isinstance(t, tuple):
+        return tuple(_subst(x, sub) if isinstance(x, tuple) else x for x in t)
+    return t
 
 
 def _cond_sig(facts, heap):
